@@ -5,7 +5,7 @@ package mount
 // Contracts for govc, the contract verifier under /verif (see /verif/DESIGN.md).
 // This file contains comments only; it adds no code under any build tag.
 
-//@ syncmap FS.mounts key string val hackpadfs.FS
+//@ syncmap FS.mounts key string val hackpadfs.FS props C06 C03
 
 //@ spec cand(k string, p string) := k == p || hasPrefix(p, k + "/")
 
